@@ -144,8 +144,9 @@ def merge_case(b, l, r, args, props):
                     if dd and base_at is not MISSING:
                         ok = wf_chars(base_at, dd) if in_line else wf_relaxed(base_at, dd)
                         if not ok:
-                            out.append(('C11', 'wf:' + fld, '%s of decision %d at %r is not well formed for its base: %r'
-                                        % (fld, di, d['common_path'], dd)))
+                            where = '%s@%s' % (d.get('action'), d['common_path'][-1] if d['common_path'] else '')
+                            out.append(('C11', 'wf:%s:%s' % (fld, where), '%s of decision %d (action %s) at %r is not well formed for its base: %r'
+                                        % (fld, di, d.get('action'), d['common_path'], dd)))
     return out, (merged, decisions)
 
 
